@@ -39,6 +39,7 @@ type specFin struct {
 	N int        `json:"n"`
 	A []specAcct `json:"a"`
 	L []specLog  `json:"l"`
+	H [][]int    `json:"h"` // byte strings the specification hashed, in order
 }
 type dumpLine struct {
 	P []int   `json:"p"`
@@ -113,6 +114,8 @@ func has46(xs []int) bool {
 // compareFinal returns "" or (kind, text) of the first disagreement between a real run and the specification.
 func compareFinal(r *runResult, d *dumpLine, pre []preAcct) (string, string) {
 	f := &d.F
+	cc := newConc(f.H)
+	concBytes, concWord, idAddr := cc.bytes, cc.word, cc.addr
 	if r.status != f.S {
 		return "status", fmt.Sprintf("real outcome %s (%s), specified %s", r.status, r.errText, f.S)
 	}
@@ -290,8 +293,12 @@ func replayLine(res *mbt.Result, h *header, d *dumpLine, specGal bool) {
 		if gal {
 			iset = "v2"
 		}
-		if r1.status == "panic" || r1.status == "hang" {
-			res.Mismatch("kvm:"+r1.status+":"+w, fmt.Sprintf("the real machine %ss (%s) on a generated program [%s]", r1.status, r1.errText, iset), detail(gal))
+		if r1.status == "panic" {
+			res.Mismatch(r1.panicSig(), fmt.Sprintf("the real machine panics (%s) on a generated program [%s]", r1.errText, iset), detail(gal))
+			continue
+		}
+		if r1.status == "hang" {
+			res.Mismatch("kvm:hang:"+w, fmt.Sprintf("the real machine hangs on a generated program [%s]", iset), detail(gal))
 			continue
 		}
 		if r1.left > rs.gas {
